@@ -5,7 +5,7 @@
    correspondence check; styles only ever add empty cells, which the reader treats as blank. *)
 From Coq Require Import List Arith.
 From PdV.Model Require Import WriteCsv WriteXl Segment Reader.
-From PdV Require Import XlProofs ParseTable RoundTrip XlRoundTrip.
+From PdV Require Import XlProofs ParseTable RoundTrip XlRoundTrip PlainLines XlPlain.
 Import ListNotations.
 
 (* styling addresses exactly the rows and cells that were written, for every list of table
@@ -57,3 +57,13 @@ Theorem C09_sheet_table_roundtrip :
     parse_table parse_float parse_dt cfg rows fx_init = Ok (table_read_back t).
 Proof. exact sheet_table_roundtrip. Qed.
 Print Assumptions C09_sheet_table_roundtrip.
+
+(* The block-shape hypothesis xl_plain follows from conditions on first cells: the name does not start
+   with a star; the destinations line, every column name and the first unit are neither blank nor a
+   block marker; every first-column value is stored as a native cell (number, timestamp, boolean) or as
+   a text that is neither blank nor a block marker. *)
+Theorem C09_xl_plain_from_first_cells :
+  forall (sep_lines : nat) (pre post : list wtable) (t : wtable),
+    w_cols t <> [] -> first_cells_plain_xl t -> xl_plain sep_lines pre post t.
+Proof. exact xl_plain_intro. Qed.
+Print Assumptions C09_xl_plain_from_first_cells.
